@@ -37,7 +37,7 @@ META = {
             "and every fault position (unrepresentable name/key/value, failing k-th write, cancellation after the k-th write, "
             "marshal error), incl. liveness under fairness; every enumerated scenario is constructed on a real store and real "
             "exporter and its post-state (TryLock, blocked EmitLabelSets goroutines, delivered label sets, error, follow-up "
-            "GetDatum+export) is compared with the model's. The liveness side (VMProgress, ExportsComplete) is also exercised on the real code: every exporter runs interleaved with concurrent metric updates and each export / update must complete within a 10 s deadline (confirmed twice).",
+            "GetDatum+export) is compared with the model's. The liveness side (VMProgress, ExportsComplete) is also exercised on the real code: every exporter runs interleaved with concurrent metric updates and each export / update must complete within a 10 s deadline (confirmed twice). The export attempt itself runs under a 10 s watchdog, and the write fault is also produced on the real network path: PushMetrics to a TCP collector that accepts and never reads must give up at the write deadline, leave the metric unlocked and let an update through.",
     "note": "Faults are single (one fault per attempt); the consumer of Collect always drains; Store.Range order is matched "
             "existentially; a stall itself (liveness) is shown on the model, on the code its cause (failed TryLock / blocked goroutine).",
     "technique": "TLA+ spec + TLC exhaustive fault enumeration, scenarios replayed on the real exporters (direction A)",
